@@ -1934,6 +1934,9 @@ class Transaction(object):
         if lock_script.startswith(b'\x6a'):
             if value != 0:
                 raise TransactionError("Output value for OP_RETURN script must be 0")
+        if isinstance(address, (Address, HDKey)) and address.network.name != self.network.name:
+            raise TransactionError("Network %s of output address is different from transaction network %s" %
+                                   (address.network.name, self.network.name))
         self.outputs.append(Output(value=int(value), address=address, public_hash=public_hash,
                                    public_key=public_key, lock_script=lock_script, spent=spent, output_n=output_n,
                                    encoding=encoding, spending_txid=spending_txid, spending_index_n=spending_index_n,
